@@ -113,6 +113,17 @@ def work(item):
             dec.decide('GetExpectationValue(O,%d,%d) = Tr(rho_%d . O.Evolve(H0(x_%d),t-t_ini)) [nx=%d d=%d nrho=%d]' % (irho, ix, ix, ix, nx, d, nrho), [ctx.poly(o) - ctx.poly(ref)],
                        'node:d=%d' % d, dict(kind='node', d=d, nx=nx, nrho=nrho, ix=ix, irho=irho),
                        sens_poly=(ctx.poly(o) - ctx.poly(ref_node((ix + 1) % nx, irho))) if nx > 1 else None)
+            # the same query through a solver object that received the configured problem by move assignment / move construction (the elapsed time
+            # t - t_ini, the grid and the states travel with the object)
+            if ix == nx - 1:
+                for wm, how in ((2, 'move-assigned into an object initialised with another t_ini'), (3, 'move-constructed')):
+                    psm = run('h_expect', [I(wm), I(nx), I(d), I(nrho), I(ix), I(irho), Buf('xs', xs), Buf('st', st), Buf('op', op), D(t), D(ti), D(scale), Buf('out', n=1), IBuf('flags', [None] * npairs)])
+                    if len(psm) != 1 or psm[0].status != 'ok' or psm[0].ret != 0:
+                        dec.candidate('node-moved:%d:d=%d' % (wm, d), 'GetExpectationValue(op,%d,%d) on a %s solver ends in %r' % (irho, ix, how, [(p.status, p.ret, p.info) for p in psm]), kind='node', which=wm, d=d, nx=nx, nrho=nrho, ix=ix, irho=irho)
+                        continue
+                    out['witnesses']['reachability'] += 1
+                    dec.decide('GetExpectationValue(O,%d,%d) on a %s solver = Tr(rho . O.Evolve(H0(x),t-t_ini)) with the source\'s t and t_ini [nx=%d d=%d]' % (irho, ix, how, nx, d), [ctx.poly(psm[0].out('out')[0]) - ctx.poly(ref)],
+                               'node-moved:%d:d=%d' % (wm, d), dict(kind='node', which=wm, d=d, nx=nx, nrho=nrho, ix=ix, irho=irho))
             # averaging overload with an unreachable scale
             ps = run('h_expect', [I(1), I(nx), I(d), I(nrho), I(ix), I(irho), Buf('xs', xs), Buf('st', st), Buf('op', op), D(t), D(ti), D(scale), Buf('out', n=1), IBuf('flags', [None] * npairs)], merge=True)
             if len(ps) == 1 and ps[0].status == 'ok' and ps[0].ret == 0:
@@ -272,7 +283,7 @@ def replay(chk, h, c):
         kind = c['kind']
         if kind in ('node', 'node-avg'):
             ix = c['ix']
-            ret, o = h.native('h_expect', [I(0 if kind == 'node' else 1), I(nx), I(d), I(nrho), I(ix), I(irho), Buf('xs', xs), Buf('st', stv), Buf('op', opv), D(t), D(ti), D(1e30), Buf('out', n=1), IBuf('flags', [0] * (d * (d - 1) // 2))])
+            ret, o = h.native('h_expect', [I(c.get('which', 0) if kind == 'node' else 1), I(nx), I(d), I(nrho), I(ix), I(irho), Buf('xs', xs), Buf('st', stv), Buf('op', opv), D(t), D(ti), D(1e30), Buf('out', n=1), IBuf('flags', [0] * (d * (d - 1) // 2))])
             if ret != 0:
                 return True, 1.0
             worst = max(worst, abs(o['out'][0] - np_expect(d, rho(ix), opv, irho, xs[ix], t - ti)))
@@ -318,7 +329,7 @@ def main(tier):
         items = [(d, nx, 1 + (nx == 3), tier) for d in (2, 3, 4, 5, 6) for nx in (2, 3, 4, 5)]
     chk.cov['bounds'] = {'configurations (d, nx, nrho)': [list(i[:3]) for i in items], 'grid': 'user grid installed through Set_xrange(vector): nx symbolic strictly increasing nodes',
                          'inputs': 'x, t, t_ini, all states, the operator symbolic; H0(x,irho): diagonal operator whose entries are uninterpreted functions of x (per irho, per generator)',
-                         'history': 'one variant runs a query on another object of another dimension first (thread-local buffer)'}
+                         'history': 'one variant runs a query on another object of another dimension first (thread-local buffer); the node-indexed form is also asked of a solver that received the problem by move assignment (into an object initialised with t_ini = 0 and another shape) or move construction'}
     chk.cov['domains'] = ['R (exact reals); sin/cos atoms keyed by their argument terms; H0 entries as uninterpreted function applications']
     chk.cov['lemmas'] = ['sin/cos atoms with equal argument polynomials are identified (parity: sin(-a) = -sin a, cos(-a) = cos a)', 'otherwise none beyond congruence: both sides apply the same kernels to the same symbolic arguments, so agreement is a polynomial identity; what is decided is the glue (node, H0 argument, time difference, weights, bracket, range)',
                          'Tr(rho_S O) = Tr(rho . e^{iH0 tau} O e^{-iH0 tau}) (cyclicity of the trace; conjugation is C03)']
